@@ -251,11 +251,37 @@ def arity_agreement(ctx, rule, modname, fn, min_names=1):
         if not cs:
             continue
         names += 1
+        # which binding may reach a call: a name re-bound one statement after the other (not on sibling branches) is called with the arity of
+        # the binding in force at the call
+        try:
+            bnd = sym.Bindings(fn)
+        except Exception:
+            bnd = None
+
+        order_ = {id(x): i for i, x in enumerate(au.stmts(fn.body))}
+
+        def may_reach(st, c):
+            cst = au.enclosing_stmt(c)
+            # a binding that comes later in the text reaches the call only around a loop that contains both
+            if cst is not None and id(st) in order_ and id(cst) in order_ and order_[id(st)] > order_[id(cst)]:
+                l1 = {id(a) for a in au.ancestors(st) if isinstance(a, (ast.For, ast.While))}
+                l2 = {id(a) for a in au.ancestors(cst) if isinstance(a, (ast.For, ast.While))}
+                if not (l1 & l2):
+                    return False
+            if bnd is None or not isinstance(st, (ast.Assign, ast.AnnAssign)):
+                return True
+            try:
+                d = bnd.reaching(name, au.enclosing_stmt(c))
+            except Exception:
+                return True
+            if d is None or d is sym.Bindings.AMBIG or not isinstance(d, ast.AST):
+                return True
+            return d is st.value
         for st, args in binds:
             mn, mx = positional_range(args)
             kwnames = {a.arg for a in args.posonlyargs + args.args + args.kwonlyargs}
             bad = None
-            for c in cs:
+            for c in [c_ for c_ in cs if may_reach(st, c_)]:
                 k = len(c.args)
                 kws = [kw.arg for kw in c.keywords if kw.arg]
                 if any(kw not in kwnames for kw in kws) and not args.kwarg:
